@@ -51,10 +51,14 @@ SCHEMAS = {'linear': SCHEMA_LINEAR, 'alt': SCHEMA_ALT}
 LEVEL_PREFIX = ['/t', '/t/l1', '/t/l1/l2', '/t/l1/l2/l3']
 DEVIATIONS = ['hmac-with-public-bits', 'unknown-signature-type', 'issuer-not-allowed', 'bad-signature', 'substituted-key', 'missing', 'nack', 'no-siginfo', 'no-keylocator',
               'keylocator-digest', 'self-loop', 'two-cycle']
-KEYS = {'ec': ['ec256_0', 'ec256_1', 'ec256_2', 'ec256_3', 'ec256_4'], 'rsa': ['rsa2048_0', 'rsa2048_1', 'rsa2048_2', 'rsa2048_3']}
+KEYS = {'ec': ['ec256_0', 'ec256_1', 'ec256_2', 'ec256_3', 'ec256_4'], 'rsa': ['rsa2048_0', 'rsa2048_1', 'rsa2048_2', 'rsa2048_3'],
+        'ed': ['ed25519_0', 'ed25519_1']}
 
 
 def signer_for(keyname, locator):
+    if keyname.startswith('ed'):
+        from ndn.security import Ed25519Signer
+        return Ed25519Signer(locator, key_der(keyname))
     if keyname.startswith('ec'):
         return Sha256WithEcdsaSigner(locator, key_der(keyname))
     return Sha256WithRsaSigner(locator, key_der(keyname))
@@ -334,7 +338,10 @@ def run_chain(case):
             # intact hierarchy with the same names; what it learned must not vouch for the deviating one
             clean = Hierarchy(case['depth'], case['types'])
             net.serve(clean)
-            v1 = lvs_validator(checker_for(case['schema']), net.app, clean.anchor)
+            try:
+                v1 = lvs_validator(checker_for(case['schema']), net.app, clean.anchor)
+            except Exception as e:  # noqa
+                return [(f'C14|chain|constructor-raises:{type(e).__name__}|pre-history', f'{e!r}; case {case}')], 'ctor'
             r1 = net.validate(v1, clean.packet)
             if r1.get('v') is not True:
                 viol.append((f"C14|chain|rejected-valid|pre-history", f"intact chain verdict {r1.get('v')}; case {case}"))
@@ -373,8 +380,8 @@ def run_chain(case):
 
 
 def chain_cases(tier):
-    typesets = {1: [['ec'], ['rsa']], 2: [['ec', 'ec'], ['rsa', 'ec'], ['ec', 'rsa']],
-                3: [['ec', 'ec', 'ec'], ['rsa', 'ec', 'rsa']], 4: [['ec', 'ec', 'ec', 'ec'], ['ec', 'rsa', 'ec', 'rsa']]}
+    typesets = {1: [['ec'], ['rsa'], ['ed']], 2: [['ec', 'ec'], ['rsa', 'ec'], ['ec', 'rsa'], ['ed', 'ec'], ['ec', 'ed']],
+                3: [['ec', 'ec', 'ec'], ['rsa', 'ec', 'rsa'], ['ed', 'rsa', 'ed']], 4: [['ec', 'ec', 'ec', 'ec'], ['ec', 'rsa', 'ec', 'rsa']]}
     for schema in SCHEMAS:
         for depth in (1, 2, 3, 4):
             for types in typesets[depth]:
